@@ -169,7 +169,7 @@ def str_cuts(ck, ctx, rule, fn_filter=None):
     """obligation per str cut site in non-derive code"""
     F = ctx.F
     n = 0
-    for b in F.all_bodies():
+    for b in F.view_bodies():
         if b.expn:
             continue
         if fn_filter and not fn_filter(b.nname):
